@@ -521,6 +521,9 @@ def worker(case: Dict[str, Any]) -> CaseResult:
         feats = list(feats) + ["scalar.config.strict_parse"]
     with core.Scratch() as root:
         cfg = write_case(root, sdl, queries, cfg_full, extra_files=extra_files or None)
+        if case["idx"] % 5 == 1 and not case.get("config_rel"):
+            from ..genpkg import plant_stale_bundled_copies
+            stats["stale_bundled_copies_planted"] = plant_stale_bundled_copies(root, cfg)  # the target holds another release's copies: they must be replaced
         if case["idx"] % 4 == 3:
             # something was generated in this interpreter before: the same inputs with nothing configured
             from ..genpkg import DECOY_KINDS, decoy_generations
